@@ -82,6 +82,12 @@ META["C09"] = {
     "design_ref": "DESIGN.md §7 C09",
 }
 
+META["C20"] = {
+    "text": "Bounded symbolic model checking of (a) the real FactoidToFactoshi with strconv.Atoi/ParseUint interpreted from their SSA over decimal strings whose every digit is a solver variable: an accepted amount equals the exact decimal value x 1e8 (as a mathematical integer), more than 8 decimals are rejected, nothing is silently altered; (b) the real Transaction.Validate / TransactionBatch.ValidData on arbitrary decoded batches: accepted <=> version 1, >=1 transaction, one non-reserved input address, exactly one of transfers/conversion, transfers sum to the input without wrap, conversion differs from the input type. Found D13 (wrapping amount), repaired by a fix: commit.",
+    "note": "0..20 integer and 0..9 fraction digits; <=2 transactions x <=2 transfers; the three regular expressions are per-pattern models; NOT claimed (not-applicable sub-claim): the JSON parser's accepted language and the marshal/unmarshal round trip",
+    "design_ref": "DESIGN.md §7 C20",
+}
+
 NOT_APPLICABLE = {}
 for i in range(1, 21):
     p = "C%02d" % i
